@@ -240,6 +240,16 @@ func c10Run(b *core.B) {
 					}
 				}
 			}
+			// a value the user stores under the helper's name on an old root wins in all its
+			// descendants, also in those made after the helper was registered
+			lateChild := root.New().(*plush.Context)
+			root.Set(name, 1)
+			for which, c := range map[string]*plush.Context{"child made before": child, "grandchild made before": grand, "child made after the registration": lateChild, "grandchild made after": lateChild.New().(*plush.Context)} {
+				if v := c.Value(name); v != 1 {
+					b.Violate("wrong-value|builtin-name|late-helper-hides-user-value", fmt.Sprintf("root.Set(%q, 1) after the helper was registered: %s sees %v", name, which, valName(v, 0)))
+					return
+				}
+			}
 			if fresh.Value(name) == nil {
 				b.Violate("late-helper-missing-in-new-root", "a helper added to plush.Helpers is not visible in a context made afterwards")
 			}
